@@ -25,7 +25,8 @@ pub const TMPLS: &[Tmpl] = &[
     Tmpl { query: "(return_statement (_)+ @vals) @ret", caps: &[("vals", K::ListSyn, ""), ("ret", K::Syn, "ret")] },
 ];
 
-pub const SCAN_REGEXES: &[&str] = &["([a-z]+)", "([0-9])", "(_|-)", "s([0-9]?)", "(a|e|i|o|u)+", "\\\\(", "([a-z])([a-z])", "[^a-z]", "f(o)?o", "x$", "^d"];
+pub const SCAN_REGEXES: &[&str] = &["([a-z]+)", "([0-9])", "(_|-)", "s([0-9]?)", "(a|e|i|o|u)+", "\\\\(", "([a-z])([a-z])", "[^a-z]", "f(o)?o", "x$", "^d", "^[0-9]", "^[a-z]", "\\\\b[a-z]", "[0-9]$", "^(_|-)", " "];
+pub const SCAN_SUBJECTS: &[&str] = &["a1", "a1b2", "x-1 y", "9lives", "ab_cd-ef", "f(x)", "s1 s2", "héllo_1"];
 
 #[derive(Clone)]
 pub struct GenOpts {
@@ -202,7 +203,7 @@ impl<'a> Gen<'a> {
             }
             12 => {
                 if !self.opts.allow_scan { return self.stmt(depth, out, ind); }
-                let s = self.expr(K::Str, 1, true);
+                let s = if self.rng.chance(45) { format!("\"{}\"", self.rng.pick(SCAN_SUBJECTS)) } else { self.expr(K::Str, 1, true) };
                 out.push_str(&format!("{}scan {} {{\n", pad, s));
                 let arms = 1 + self.rng.below(3);
                 for _ in 0..arms {
